@@ -257,6 +257,11 @@ def r4_budget(rep, facts, g):
     others = [short(d) for d, bb in facts.bodies.items() if d.startswith(P) and d != P + 'key::key' and
               any(any(c.endswith('RecursionCheck::check_depth') for c in callee_all(n)) for n in calls_in(bb['body']))]
     rep.info(R, f'other check_depth call sites: {others}')
+    # the length check lives in the key parser (and may be reused by enter): a second, differently scoped check elsewhere (e.g. header path + key
+    # path in on_keyval) makes two constructs share one budget and rejects documents that are below the limit in each
+    extra = [o for o in others if o not in ('prelude::RecursionCheck::enter',)]
+    rep.check(R, 'check_depth|callers', not extra, 'called from key() (and enter) only', f'RecursionCheck::check_depth is also called from {extra}: paths that are below the limit in each single '
+              f'construct (e.g. a 40-segment header and a 40-segment key) are rejected', loc)
     # one budget: the argument must depend on the shared counter
     dep = False
     for n in cds:
